@@ -1577,6 +1577,104 @@ STREAMS.update({
 })
 
 
+class NetModel(Net):
+    """three-way: the four real clients, the extracted Coq client model (Client.v: datagram filter,
+    strategy, TCP framing composed into one raw query) and a code-blind RFC filter written in the
+    checker, on the very same datagrams and TCP segments."""
+    name = "clientmodel"
+    focus = "xmodel"
+    quick_n = 120
+    thorough_n = 2400
+    rule = ("one raw query per scenario; strategy udp/notcp/tcp; the server delivers 0-4 datagrams 40 ms apart, each a genuine response "
+            "with 0-3 of 14 mutations (id bit, QDCOUNT, name octet incl. case and length octets, type/class bit, truncation at every "
+            "boundary, flag bits incl. TC, other counts, padding beyond the caller buffer, first label + pointer into the header, pointer "
+            "to a zero octet, doubled question, random bytes, extra label, dropped label), optionally followed by the genuine response; the "
+            "TCP side serves a checker-chosen byte stream (length prefix true or lying, body 0..buf, trailing bytes, early end) in 1-6 "
+            "segments. The id is the client's own (read from the wire). Compared: events (UDP/TCP used) and result of model vs "
+            "implementation vs code-blind filter+framing. 4 clients round-robin. Non-trivial: a datagram or stream was accepted or the call timed out.")
+
+    def spec_expect(self, sc, q, qid):
+        """code-blind: what a correct client returns"""
+        def tcp():
+            mode = q.tcp[1].split(":")
+            stream = b"".join(bytes.fromhex(x) for x in mode[2].split(".") if x != "-")
+            if len(stream) < 2:
+                return "err:IoError(UnexpectedEof)"
+            n = int.from_bytes(stream[:2], "big")
+            if n > sc.buf:
+                return "err:BufferTooShort(%d)" % n
+            if len(stream) < 2 + n:
+                return "err:IoError(UnexpectedEof)"
+            return "ok:%d:%s" % (n, G.hx(stream[2:2 + n]))
+        if sc.strategy == "tcp":
+            return "T " + tcp()
+        for (_, what) in q.udp[0]:
+            d = bytearray(bytes.fromhex(what[1:]) if what[1:] != "-" else b"")
+            for i in range(min(2, len(d))):
+                d[i] ^= qid[i]
+            d = bytes(d[:sc.buf])
+            fl = NG.spec_accept(d, qid, q.name, q.qtype, q.qclass)
+            if fl is not None:
+                if (fl & 0x0200) and sc.strategy == "udp":
+                    return "UT " + tcp()
+                return "U ok:%d:%s" % (len(d), G.hx(d))
+        return "U err:Timeout"
+
+    def run(self, cases, pid, tier):
+        impl = run_net_parallel(cases)
+        fails, hist, samples, nontriv = [], {}, [], 0
+        mlines, info = [], {}
+        for line in cases:
+            cid = line.split(" ", 1)[0]
+            sc = self.scen[cid]
+            q = sc.queries[0]
+            i = impl.get(cid, "MISSING")
+            if i.startswith(ABNORMAL) or "PANIC" in i or "new=err" in i or i == "MISSING":
+                fails.append({"stream": self.name, "case": line, "observed": i[:300], "expected": "a result", "why": "[%s client] implementation %s" % (sc.client, i[:80])})
+                continue
+            res, udp, tcp = parse_net(i)
+            r = res.get(0, ("?", 0))[0]
+            wire = [b for (_, _, b) in udp] + [b[2:] for (_, _, b) in tcp]
+            ids = set(b[:2] for b in wire if len(b) >= 2)
+            if len(ids) != 1:
+                fails.append({"stream": self.name, "case": line, "observed": i[:300], "expected": "one message id on the wire", "why": "[%s client] %d different ids on the wire" % (sc.client, len(ids))})
+                continue
+            qid = next(iter(ids))
+            ev = ("U" if udp else "") + ("T" if tcp else "")
+            observed = "%s %s" % (ev, r)
+            ds = []
+            for (_, what) in q.udp[0]:
+                d = bytearray(bytes.fromhex(what[1:]) if what[1:] != "-" else b"")
+                for k in range(min(2, len(d))):
+                    d[k] ^= qid[k]
+                ds.append(G.hx(d))
+            mode = q.tcp[1].split(":")
+            segs = [x for x in mode[2].split(".") if x != "-"]
+            mlines.append("%s xq %s %s %d %s %d %d %d %s %s" % (cid, sc.client, sc.strategy, int.from_bytes(qid, "big"), G.hx(q.name), q.qtype, q.qclass, sc.buf,
+                                                              "/".join(ds) or "-", "/".join(segs) or "-"))
+            info[cid] = (line, sc, observed, self.spec_expect(sc, q, qid))
+        model = C.run_model(mlines) if mlines else {}
+        dis = []
+        for cid, (line, sc, observed, spec) in info.items():
+            m = model.get(cid, "MISSING")
+            c = "%s:%s" % (sc.client, observed.split(":")[0])
+            hist[c] = hist.get(c, 0) + 1
+            if "ok:" in observed or "Timeout" in observed:
+                nontriv += 1
+            if len(samples) < 3:
+                samples.append({"case": line.split(" ", 1)[1][:300], "impl": observed[:200], "model": m[:200]})
+            if m != observed:
+                dis.append({"stream": self.name, "case": line, "model": m[:600], "impl": observed[:600]})
+            if spec != observed:
+                fails.append({"stream": self.name, "case": line, "observed": observed[:600], "expected": spec[:600],
+                              "why": "[%s client] returned %s; a correct client (id + single matching question, strategy, length-prefix framing) returns %s" % (sc.client, observed[:120], spec[:120])})
+        return {"evaluations": len(cases), "distinct_nontrivial": nontriv, "rule": self.rule, "samples": samples, "histogram": hist,
+                "disagreements": dis, "failures": fails, "model_impl_agree": len(info) - len(dis)}
+
+
+STREAMS.update({"clientmodel": NetModel()})
+
+
 # ------------------------------------------------------------------------------- send_assert (C19)
 class SendAssert(Stream):
     """static Send/Sync assertions compiled against the current tree"""
